@@ -1,9 +1,12 @@
 //! One module per property.
 
+pub mod c0506;
 pub mod c17;
 
 pub fn run(id: &str, tier: &str) -> i32 {
   match id {
+    "C05" => c0506::run("C05", tier),
+    "C06" => c0506::run("C06", tier),
     "C17" => c17::run(tier),
     _ => {
       eprintln!("unknown property id {}", id);
